@@ -1823,6 +1823,18 @@ fn block(input: Span) -> IResult<Span, Expression> {
     delimited(pair(char('{'), wsc), expression, pair(wsc, char('}')))(input)
 }
 
+/// The optional body of a function. A `{` after the head can only be the body: if it does not
+/// parse as one it would not parse as the next term either, and trying would double the work at
+/// every nesting level.
+fn function_body(input: Span) -> IResult<Span, Option<Expression>> {
+    match alt((preceded(ws1, block), block))(input) {
+        Ok((rest, body)) => Ok((rest, Some(body))),
+        Err(nom::Err::Error(error)) if no_block(input).is_err() => Err(nom::Err::Error(error)),
+        Err(nom::Err::Error(_)) => Ok((input, None)),
+        Err(error) => Err(error),
+    }
+}
+
 fn function(input: Span) -> IResult<Span, Function> {
     let start = input;
     let (rest, mut func) = map(
@@ -1836,7 +1848,7 @@ fn function(input: Span) -> IResult<Span, Function> {
                 )),
                 opt(preceded(not(peek(char('{'))), function_input_type)),
                 opt(preceded(tuple((ws1, tag("->"), ws1)), function_output_type)),
-                opt(alt((preceded(ws1, block), block))),
+                function_body,
             )),
         ),
         |(type_parameters, parameter_type, return_type, body)| Function {
